@@ -169,8 +169,12 @@ func RichSchema(rng *rand.Rand, opt RichOptions) string {
 		if !opt.Deprecations || rng.Intn(3) != 0 {
 			return ""
 		}
-		if rng.Intn(2) == 0 {
+		switch rng.Intn(5) {
+		case 0, 1:
 			return " @deprecated"
+		case 2:
+			// an empty reason is a reason: not the directive's default "No longer supported"
+			return ` @deprecated(reason: "")`
 		}
 		return ` @deprecated(reason: "use something else")`
 	}
